@@ -54,10 +54,40 @@ def canon_obs(v):
     return ("object", type(v).__name__)
 
 
+class Broken:
+    """Returned by an operation that checks an invariant of its own (an object it created must not be
+    changed by the calls it then makes) when that invariant does not hold."""
+
+    def __init__(self, before, after):
+        self.before, self.after = before, after
+
+
+def keeps(make, *uses):
+    """Operation: build an object, note what can be observed of it, make further calls that are
+    handed the object (or parts of it), and compare."""
+    def run():
+        obj = make()
+        parts = [obj] + ([obj.bban] if isinstance(obj, lib.IBAN) else [])
+        before = [canon_obs(x) for x in parts] + [x.__getnewargs__() for x in parts]
+        outs = []
+        for use in uses:
+            try:
+                outs.append(canon_obs(use(obj)))
+            except Exception as e:  # noqa: BLE001
+                outs.append("raises " + type(e).__name__)
+        after = [canon_obs(x) for x in parts] + [x.__getnewargs__() for x in parts]
+        if after != before:
+            return Broken(before, after)
+        return outs
+    return run
+
+
 def observe(fn):
     """-> (canonical observation, live value or None)"""
     try:
         v = fn()
+        if isinstance(v, Broken):
+            return ("object-modified", (repr(v.before)[:300], repr(v.after)[:300])), None
     except lib.SchwiftyException as e:
         return ("raises", type(e).__name__), None
     except Exception as e:  # noqa: BLE001
@@ -238,6 +268,31 @@ def build_alphabet(ga: dict, tier: str = "thorough"):
     add("iban-pl-bic-then-fields", lambda: (I("PL61109010140000071219812874").bic,
                                             I("PL61109010140000071219812874").bank_code,
                                             I("SI56263300012039086").bic, I("SI56263300012039086").bank_code), True)
+    # ---- objects handed to further calls must come back unchanged (checked inside the operation)
+    add("keeps-bban-handed-to-from_bban-of-another-country", keeps(
+        lambda: I("LT121000011101001000").bban,
+        lambda b: I.from_bban("AT", b), lambda b: I.from_bban("AT", b, validate_bban=True),
+        lambda b: I.from_bban("AT", b, allow_invalid=True), lambda b: BB("AT", b), lambda b: BB("AT", b).bank_code))
+    add("keeps-iban-handed-to-constructors", keeps(
+        lambda: I(VALID), lambda i: I(i), lambda i: I(i, validate_bban=True), lambda i: I.from_bban("DE", i.bban),
+        lambda i: BB("FR", i.bban), lambda i: copy.copy(i).bban.bank_name, lambda i: i.bic))
+    add("keeps-bban-with-lower-case-country", keeps(
+        lambda: BB("de", "370400440532013000"), lambda b: b.spec, lambda b: b.bank_name, lambda b: b.bic,
+        lambda b: b.bank_code, lambda b: lib.outcome(b.validate_national_checksum)))
+    add("bban-lower-case-country-then-from_bban", lambda: (lambda b: (lib.outcome(lambda: b.bank_name),
+        lib.outcome(lambda: str(I.from_bban(b.country_code, b)))))(BB("de", "370400440532013000")))
+    add("keeps-bic-handed-to-constructors", keeps(
+        lambda: B("GENODEM1GLS"), lambda b: B(b), lambda b: b.domestic_bank_codes, lambda b: copy.deepcopy(b)))
+    # ---- extra keyword components given to generate / from_components, next to plain calls for
+    # countries that have such fields
+    add("generate-gt-extra-keywords", lambda: I.generate("GT", "TRAJ", "0000001210029690", account_type="10",
+                                                         currency_code="01"))
+    add("generate-gt-plain", lambda: I.generate("GT", "TRAJ", "0000001210029690"))
+    add("generate-mu-plain", lambda: I.generate("MU", "BOMM01", "101030300200000"))
+    add("generate-bg-plain", lambda: I.generate("BG", "BNBG", "1020345678", "9661"))
+    add("from_components-is-account-type", lambda: BB.from_components("IS", bank_code="01", account_type="26",
+                                                                      account_code="007654"))
+    add("generate-is-plain", lambda: I.generate("IS", "01", "007654", "59"))
     # ---- a bank-less country drawn with a pinned bank code while the registry is switched on
     add("random-mu-pinned-bank-registry", lambda: I.random("MU", random=random.Random(9), bank_code="BOMM01"))
     add("random-br-pinned-bank-registry", lambda: I.random("BR", random=random.Random(10), bank_code="00360305"))
@@ -360,7 +415,9 @@ def run_history(history, extra=None, check_all=True):
         name, fn = ops[oi][0], ops[oi][1]
         obs, val = observe(fn)
         problems = []
-        if obs != fresh[oi]:
+        if obs[0] == "object-modified":
+            problems.append(("object-modified-by-calls-it-was-handed-to", obs[1][0], obs[1][1]))
+        elif obs != fresh[oi]:
             problems.append(("outcome-depends-on-history", fresh[oi], obs))
         if step >= n_hist and (check_all or step == n_hist + len(extra or []) - 1):
             # the registry comparison is the expensive part: it is made after every *new* operation
